@@ -37,6 +37,7 @@ from .constants import DIAMETER_AGENT_CLIENT_MODE
 from .constants import DIAMETER_AGENT_SERVER_MODE
 from .constants import DIAMETER_AGENT_TRANSPORT_TYPE_TCP
 from .constants import DIAMETER_AGENT_TRANSPORT_TYPE_SCTP
+from . import exceptions
 from .exceptions import AVPParsingError
 from .exceptions import DiameterApplicationError
 from .exceptions import DiameterAssociationError
@@ -54,6 +55,15 @@ from .utils import is_base_answer
 
 diameter_conn_logger = logging.getLogger("DiameterConnection")
 diameter_logger = logging.getLogger("Diameter")
+
+DIAMETER_HEADER_LENGTH = 20
+
+#: Whatever a malformed Diameter Message may raise while being parsed: the 
+#: library's own error types (which derive from BaseException) and the 
+#: standard ones raised by the data types underneath.
+PARSING_ERRORS = tuple(error for error in vars(exceptions).values() 
+                             if isinstance(error, type) and 
+                                issubclass(error, BaseException)) + (Exception,)
 
 
 def make_logging(msg, disable_else=False):
@@ -100,6 +110,7 @@ class DiameterAssociation(object):
 
         self._recv_messages = queue.Queue()
         self._send_messages = queue.Queue()
+        self._recv_pending = b""
 
         self.postprocess_recv_messages = queue.Queue() 
         self.postprocess_recv_messages_ready = threading.Event()
@@ -169,6 +180,7 @@ class DiameterAssociation(object):
             self.lock.acquire()
 
             if self.transport is None:
+                self.lock.release()
                 break
 
             data_stream = self.transport.pop_recv_data_stream()
@@ -176,18 +188,44 @@ class DiameterAssociation(object):
             diameter_conn_logger.debug("Grabbing data stream from "\
                                        "Transport Layer to Diameter Layer.")
 
-            try:
-                msgs = DiameterMessage.load(data_stream)
-                for msg in msgs:
-                    make_logging(msg, disable_else=True)
-                    self._recv_messages.put(msg)
-                
-                diameter_conn_logger.debug(f"Found {len(msgs)} Diameter "\
-                                           f"Message(s).")
-            except AVPParsingError:
-                diameter_conn_logger.exception(f"AVPParsingError has "\
-                                               f"been raised due stream: "\
-                                               f"{self.transport._recv_data_stream.hex()}")
+            #: TCP/SCTP delivers a byte stream: a read may end in the middle
+            #: of a message (even of its header) or carry several messages.
+            #: Only complete messages are parsed, the remainder is kept until
+            #: the rest of it arrives.
+            self._recv_pending += data_stream
+
+            while len(self._recv_pending) >= DIAMETER_HEADER_LENGTH:
+                version = self._recv_pending[0]
+                length = int.from_bytes(self._recv_pending[1:4], byteorder="big")
+
+                if version != 1 or length < DIAMETER_HEADER_LENGTH or length % 4:
+                    #: The message boundaries are lost for good, there is no
+                    #: way to resynchronise: signal a peer disconnection.
+                    diameter_conn_logger.error(f"Invalid Diameter Header has "\
+                                               f"been found in stream: "\
+                                               f"{self._recv_pending[:DIAMETER_HEADER_LENGTH].hex()}")
+                    self._recv_pending = b""
+                    self.transport._stop_threads = True
+                    break
+
+                if len(self._recv_pending) < length:
+                    break
+
+                stream = self._recv_pending[:length]
+                self._recv_pending = self._recv_pending[length:]
+
+                try:
+                    msgs = DiameterMessage.load(stream)
+                    for msg in msgs:
+                        make_logging(msg, disable_else=True)
+                        self._recv_messages.put(msg)
+
+                    diameter_conn_logger.debug(f"Found {len(msgs)} Diameter "\
+                                               f"Message(s).")
+                except PARSING_ERRORS:
+                    diameter_conn_logger.exception(f"Diameter Message has "\
+                                                   f"been discarded due "\
+                                                   f"stream: {stream.hex()}")
 
             self.lock.release()
 
